@@ -116,7 +116,7 @@ func Main(args []string) error {
 	npert := 0
 	distinct := map[string]bool{}
 	samples := []any{}
-	snrs := []int{-1, 1, 17}
+	snrs := []int{-1, 1, 17, tl.SNRImplicit}
 	asts := []int64{0, 1000, 1_699_999_000}
 	if *thorough {
 		snrs = append(snrs, 5+rng.Intn(1000))
